@@ -83,8 +83,11 @@ def _run_entry(args):
         try:
             repo = Repo(sc)
             chk = Check(prop, repo, "quick")
-            mod.run(chk)
+            from .core import run_rules
+            errs = run_rules(mod, chk)
             viol = sorted({o.rule for o in chk.obs if not o.ok})
+            if errs and not viol:
+                return e["name"], "analysis-error", [x[:120] for x in errs[:2]]
             return e["name"], "ran", viol
         except AnalysisError as ex:
             return e["name"], "analysis-error", [str(ex)[:120]]
